@@ -76,7 +76,14 @@ func (t *Term) IsOne() bool    { return t.Op == "c" && t.C.Cmp(big.NewRat(1, 1))
 func sortTerms(ts []*Term)     { sort.Slice(ts, func(i, j int) bool { return ts[i].Key() < ts[j].Key() }) }
 func Neg(t *Term) *Term        { return Mul(K(-1), t) }
 func Sub(a, b *Term) *Term     { return Add(a, Neg(b)) }
-func Call(fn string, args ...*Term) *Term { return capTerm(&Term{Op: "call", S: fn, Args: args}) }
+func Call(fn string, args ...*Term) *Term {
+	if fn == "math.Min" || fn == "math.Max" {
+		// commutative: canonical argument order
+		args = append([]*Term{}, args...)
+		sortTerms(args)
+	}
+	return capTerm(&Term{Op: "call", S: fn, Args: args})
+}
 func Conv(ty string, a *Term) *Term {
 	if a.Op == "c" && (ty == "float64" || ty == "int" || ty == "uint" || ty == "uint32") {
 		return a
@@ -264,6 +271,22 @@ func Ite(c, a, b *Term) *Term {
 			return a
 		}
 		return b
+	}
+	// a is evaluated knowing c, b knowing not c
+	nc := Not(c)
+	if a.Op == "ite" {
+		if a.Args[0].Key() == c.Key() {
+			a = a.Args[1]
+		} else if a.Args[0].Key() == nc.Key() {
+			a = a.Args[2]
+		}
+	}
+	if b.Op == "ite" {
+		if b.Args[0].Key() == c.Key() {
+			b = b.Args[2]
+		} else if b.Args[0].Key() == nc.Key() {
+			b = b.Args[1]
+		}
 	}
 	if a.Key() == b.Key() {
 		return a
